@@ -1,0 +1,304 @@
+// SPDX-FileCopyrightText: 2026 The Pion community <https://pion.ly>
+// SPDX-License-Identifier: MIT
+
+//go:build verif && !js
+
+package webrtc
+
+import (
+	"errors"
+
+	"github.com/pion/ice/v4"
+	"github.com/pion/interceptor"
+	"github.com/pion/logging"
+	"github.com/pion/sdp/v3"
+)
+
+// Verification hooks for the remote-input path (C30): exported wrappers around the unexported
+// helpers that index into parsed remote descriptions, candidates and RTP packets.
+
+// VerifOpsDone blocks until every operation queued on the connection's operations queue so far
+// (startTransports, startRTP, negotiation-needed checks) has run.
+func VerifOpsDone(pc *PeerConnection) { pc.ops.Done() }
+
+// VerifTrackDetails is the exported image of trackDetails.
+type VerifTrackDetails struct {
+	Mid      string
+	Kind     RTPCodecType
+	StreamID string
+	ID       string
+	SSRCs    []SSRC
+	RTX      *SSRC
+	FEC      *SSRC
+	RIDs     []string
+}
+
+func verifLog() logging.LeveledLogger {
+	f := logging.NewDefaultLoggerFactory()
+	f.DefaultLogLevel = logging.LogLevelDisabled
+
+	return f.NewLogger("verif")
+}
+
+func verifExportTrackDetails(in []trackDetails) []VerifTrackDetails {
+	out := make([]VerifTrackDetails, 0, len(in))
+	for i := range in {
+		out = append(out, VerifTrackDetails{
+			Mid: in[i].mid, Kind: in[i].kind, StreamID: in[i].streamID, ID: in[i].id,
+			SSRCs: in[i].ssrcs, RTX: in[i].rtxSsrc, FEC: in[i].fecSsrc, RIDs: in[i].rids,
+		})
+	}
+
+	return out
+}
+
+// VerifTrackDetailsFromSDP runs trackDetailsFromSDP.
+func VerifTrackDetailsFromSDP(s *sdp.SessionDescription) []VerifTrackDetails {
+	return verifExportTrackDetails(trackDetailsFromSDP(verifLog(), s))
+}
+
+// VerifGetRids runs getRids and returns the ids and paused flags.
+func VerifGetRids(m *sdp.MediaDescription) (ids []string, paused []bool) {
+	for _, r := range getRids(m) {
+		ids = append(ids, r.id)
+		paused = append(paused, r.paused)
+	}
+
+	return ids, paused
+}
+
+// VerifExtractBundleID runs extractBundleID.
+func VerifExtractBundleID(s *sdp.SessionDescription) string { return extractBundleID(s) }
+
+// VerifExtractFingerprintParsed runs extractFingerprint on a parsed description.
+func VerifExtractFingerprintParsed(s *sdp.SessionDescription) (string, string, error) {
+	return extractFingerprint(s)
+}
+
+// VerifGetPeerDirection runs getPeerDirection.
+func VerifGetPeerDirection(m *sdp.MediaDescription) RTPTransceiverDirection {
+	return getPeerDirection(m)
+}
+
+// VerifGetMidValue runs getMidValue.
+func VerifGetMidValue(m *sdp.MediaDescription) string { return getMidValue(m) }
+
+// VerifDescriptionIsPlanB runs descriptionIsPlanB (parsed == nil means a description without parsed form;
+// present == false a nil description).
+func VerifDescriptionIsPlanB(present bool, s *sdp.SessionDescription) bool {
+	if !present {
+		return descriptionIsPlanB(nil, verifLog())
+	}
+
+	return descriptionIsPlanB(&SessionDescription{parsed: s}, verifLog())
+}
+
+// VerifDescriptionPossiblyPlanB runs descriptionPossiblyPlanB.
+func VerifDescriptionPossiblyPlanB(present bool, s *sdp.SessionDescription) bool {
+	if !present {
+		return descriptionPossiblyPlanB(nil)
+	}
+
+	return descriptionPossiblyPlanB(&SessionDescription{parsed: s})
+}
+
+// VerifSelectCandidateMediaSection runs selectCandidateMediaSection.
+func VerifSelectCandidateMediaSection(s *sdp.SessionDescription) (mid string, index uint16, ok bool) {
+	d, ok := selectCandidateMediaSection(s)
+	if !ok || d == nil {
+		return "", 0, false
+	}
+
+	return d.SDPMid, d.SDPMLineIndex, true
+}
+
+// VerifExtractICEDetails runs extractICEDetails.
+func VerifExtractICEDetails(s *sdp.SessionDescription) (ufrag, pwd string, candidates int, err error) {
+	d, err := extractICEDetails(s, verifLog())
+	if err != nil {
+		return "", "", 0, err
+	}
+
+	return d.Ufrag, d.Password, len(d.Candidates), nil
+}
+
+// VerifCodecsFromMediaDescription runs codecsFromMediaDescription.
+func VerifCodecsFromMediaDescription(m *sdp.MediaDescription) ([]RTPCodecParameters, error) {
+	return codecsFromMediaDescription(m)
+}
+
+// VerifReceiveEncodings runs trackDetailsToRTPReceiveParameters and returns (rid, ssrc, rtx, fec) per encoding.
+func VerifReceiveEncodings(t VerifTrackDetails) [][4]string {
+	p := trackDetailsToRTPReceiveParameters(&trackDetails{
+		mid: t.Mid, kind: t.Kind, streamID: t.StreamID, id: t.ID, ssrcs: t.SSRCs, rtxSsrc: t.RTX, fecSsrc: t.FEC,
+		rids: t.RIDs,
+	})
+	out := [][4]string{}
+	for _, e := range p.Encodings {
+		out = append(out, [4]string{
+			e.RID, uitoa(uint64(e.SSRC)), uitoa(uint64(e.RTX.SSRC)), uitoa(uint64(e.FEC.SSRC)),
+		})
+	}
+
+	return out
+}
+
+func uitoa(v uint64) string {
+	if v == 0 {
+		return "0"
+	}
+	b := []byte{}
+	for v > 0 {
+		b = append([]byte{byte('0' + v%10)}, b...)
+		v /= 10
+	}
+
+	return string(b)
+}
+
+// VerifHandleUnknownRTPPacket runs handleUnknownRTPPacket.
+func VerifHandleUnknownRTPPacket(buf []byte, midID, ridID, rsidID uint8) (
+	mid, rid, rsid string, paddingOnly bool, err error,
+) {
+	return handleUnknownRTPPacket(buf, midID, ridID, rsidID)
+}
+
+// VerifStartRTPReceivers runs startRTPReceivers on the calling goroutine with the given remote
+// description (so that a panic in it can be recovered by the caller) and the connection's
+// current transceivers.
+func VerifStartRTPReceivers(pc *PeerConnection, s *sdp.SessionDescription, typ SDPType) {
+	pc.startRTPReceivers(
+		&SessionDescription{Type: typ, parsed: s},
+		append([]*RTPTransceiver{}, pc.GetTransceivers()...),
+	)
+}
+
+// VerifConfigureRTPReceivers runs configureRTPReceivers on the calling goroutine.
+func VerifConfigureRTPReceivers(pc *PeerConnection, isRenegotiation bool, s *sdp.SessionDescription, typ SDPType) {
+	pc.configureRTPReceivers(
+		isRenegotiation,
+		&SessionDescription{Type: typ, parsed: s},
+		append([]*RTPTransceiver{}, pc.GetTransceivers()...),
+	)
+}
+
+// VerifHandleUndeclaredSSRC runs handleUndeclaredSSRC on the calling goroutine.
+func VerifHandleUndeclaredSSRC(pc *PeerConnection, ssrc SSRC, m *sdp.MediaDescription) (bool, error) {
+	return pc.handleUndeclaredSSRC(ssrc, m)
+}
+
+// VerifFindMediaSectionByPayloadType runs findMediaSectionByPayloadType and returns the index of the
+// section found.
+func VerifFindMediaSectionByPayloadType(pc *PeerConnection, pt PayloadType, s *sdp.SessionDescription) (int, bool) {
+	m, ok := pc.findMediaSectionByPayloadType(pt, &SessionDescription{parsed: s})
+	if !ok {
+		return 0, false
+	}
+	for i := range s.MediaDescriptions {
+		if s.MediaDescriptions[i] == m {
+			return i, true
+		}
+	}
+
+	return 0, false
+}
+
+// VerifCheckAndUpdateTrack runs TrackRemote.checkAndUpdateTrack on a fresh track of a fresh receiver of
+// the given API and returns the resulting payload type and codec mime type.
+func VerifCheckAndUpdateTrack(api *API, kind RTPCodecType, buf []byte) (PayloadType, string, error) {
+	r := &RTPReceiver{kind: kind, api: api}
+	t := newTrackRemote(kind, 1, 0, "", r)
+	err := t.checkAndUpdateTrack(buf)
+
+	return t.PayloadType(), t.Codec().MimeType, err
+}
+
+// VerifRemoteDescriptionIsNil reports whether RemoteDescription() is nil.
+func VerifRemoteDescriptionIsNil(pc *PeerConnection) bool { return pc.RemoteDescription() == nil }
+
+// VerifWriteRawRTP protects and sends one RTP packet (any SSRC / payload type / extensions) on the
+// connection's SRTP session, bypassing senders and tracks.
+func VerifWriteRawRTP(pc *PeerConnection, pkt []byte) error {
+	sess, err := pc.dtlsTransport.getSRTPSession()
+	if err != nil {
+		return err
+	}
+	ws, err := sess.OpenWriteStream()
+	if err != nil {
+		return err
+	}
+	_, err = ws.Write(pkt)
+
+	return err
+}
+
+// VerifWriteRawRTCP protects and sends one (compound) RTCP packet on the connection's SRTCP session.
+func VerifWriteRawRTCP(pc *PeerConnection, pkt []byte) error {
+	sess, err := pc.dtlsTransport.getSRTCPSession()
+	if err != nil {
+		return err
+	}
+	ws, err := sess.OpenWriteStream()
+	if err != nil {
+		return err
+	}
+	_, err = ws.Write(pkt)
+
+	return err
+}
+
+// verifRecordingCandidate records the extensions handed to AddExtension; every other method of the
+// embedded (nil) ice.Candidate is unused by exportExtensions.
+type verifRecordingCandidate struct {
+	ice.Candidate
+	got [][2]string
+}
+
+var errVerifExtensionRefused = errors.New("verif: extension refused")
+
+// AddExtension records the extension; a key "fail" is refused.
+func (r *verifRecordingCandidate) AddExtension(e ice.CandidateExtension) error {
+	if e.Key == "fail" {
+		return errVerifExtensionRefused
+	}
+	r.got = append(r.got, [2]string{e.Key, e.Value})
+
+	return nil
+}
+
+// VerifCandidateExportExtensions runs ICECandidate.exportExtensions on the given raw extension string and
+// returns the (key, value) pairs it handed to AddExtension.
+func VerifCandidateExportExtensions(raw string) ([][2]string, error) {
+	c := ICECandidate{extensions: raw}
+	rec := &verifRecordingCandidate{}
+	err := c.exportExtensions(rec)
+
+	return rec.got, err
+}
+
+// VerifReceiverRead builds an RTPReceiver that has been started (received is closed) with one track per
+// element of bound — element i has its RTCP reader bound iff bound[i] — and calls Read on it. It returns the
+// index of the track whose reader was used, or -1 with the error Read returned.
+func VerifReceiverRead(bound []bool) (int, error) {
+	received := make(chan any)
+	close(received)
+	r := &RTPReceiver{
+		kind: RTPCodecTypeVideo, received: received, closedChan: make(chan any), log: verifLog(),
+	}
+	for i := range bound {
+		i := i
+		ts := trackStreams{track: newTrackRemote(RTPCodecTypeVideo, 0, 0, string(rune('a'+i%26)), r)}
+		if bound[i] {
+			ts.rtcpInterceptor = interceptor.RTCPReaderFunc(
+				func([]byte, interceptor.Attributes) (int, interceptor.Attributes, error) { return i + 1, nil, nil },
+			)
+		}
+		r.tracks = append(r.tracks, ts)
+	}
+	n, _, err := r.Read(make([]byte, 8))
+	if err != nil {
+		return -1, err
+	}
+
+	return n - 1, nil
+}
